@@ -166,11 +166,11 @@ theorem compile_maximal_munch (items : LexerDef) (c : Compiled) (h : compileLexe
     (actions : Nat → Action σ τ ε) (width : Nat → Nat) (input : Option (List Nat)) :
     ∃ e rules, IsEntryOf items c name e ∧ coreRules rs b k = some rules ∧
       ∀ (st : LState σ), st.last = none → st.done = false →
-        (∀ a st', scan (c.config actions width input) (dispatch (stateArms c.dfa)) e st.iter st = .act a st' →
+        (∀ a st', scan (c.config actions width input) (dispatch (stateArms c.dfa (inlinedStates c.dfa))) e st.iter st = .act a st' →
           ∃ n viaEoi, LangCand rules ctxAt st.iter n a viaEoi ∧
             (∀ n' a' e', LangCand rules ctxAt st.iter n' a' e' → candLe n' e' n viaEoi) ∧
             ∃ s', st' = { advanceBy width st n with last := none, done := viaEoi, state := s' }) ∧
-        (∀ loc st', scan (c.config actions width input) (dispatch (stateArms c.dfa)) e st.iter st = .err loc st' →
+        (∀ loc st', scan (c.config actions width input) (dispatch (stateArms c.dfa (inlinedStates c.dfa))) e st.iter st = .err loc st' →
           (∀ n a e', ¬ LangCand rules ctxAt st.iter n a e') ∧ loc = st.curStart) := by
   obtain ⟨e, rules, hent, hlt, hcore, hiff⟩ :=
     compile_cand_iff items c h hok ctxAt hnum name rs b k hmem actions width input
@@ -180,14 +180,14 @@ theorem compile_maximal_munch (items : LexerDef) (c : Compiled) (h : compileLexe
   have hns := dispatchOK_of_machineOK _ hm
   constructor
   · intro a st' hs
-    have hs' : scan (c.config actions width input) (dispatch (stateArms (c.config actions width input).dfa)) e st.iter st = .act a st' := hs
+    have hs' : scan (c.config actions width input) (dispatch (stateArms (c.config actions width input).dfa (c.config actions width input).inl)) e st.iter st = .act a st' := hs
     rw [scan_eq_scanPlain _ _ hm.flags hm.acceptAny hm.targets hns e st.iter st (by simp [hlast])] at hs'
     obtain ⟨n, ve, hc, hmax, s', hst'⟩ := scanPlain_act _ _ hm.targets hns e st hlast hdone a st' hs'
     refine ⟨n, ve, (hiff st.iter n a ve).mp hc, ?_, s', hst'⟩
     intro n' a' e' hl
     exact hmax n' a' e' ((hiff st.iter n' a' e').mpr hl)
   · intro loc st' hs
-    have hs' : scan (c.config actions width input) (dispatch (stateArms (c.config actions width input).dfa)) e st.iter st = .err loc st' := hs
+    have hs' : scan (c.config actions width input) (dispatch (stateArms (c.config actions width input).dfa (c.config actions width input).inl)) e st.iter st = .err loc st' := hs
     rw [scan_eq_scanPlain _ _ hm.flags hm.acceptAny hm.targets hns e st.iter st (by simp [hlast])] at hs'
     have := scanPlain_err _ _ hm.targets hns e st hlast loc st' hs'
     refine ⟨?_, this.2.1⟩
